@@ -446,6 +446,18 @@ Section C01.
   Qed.
 End C01.
 
+(* ---------------- oct keys: the material is exactly the octets given ---------------- *)
+Theorem oct_import_exact :
+  (forall a, import_oct a = a) /\
+  (forall a b, import_oct a = import_oct b -> a = b) /\
+  (forall a, length (import_oct a) = length a).
+Proof. repeat split; auto. Qed.
+
+(* hence octet strings that differ (e.g. in a leading whitespace octet) are different HMAC keys:
+   the MAC oracle is asked with different material *)
+Theorem oct_import_distinct a b : a <> b -> import_oct a <> import_oct b.
+Proof. unfold import_oct. auto. Qed.
+
 (* ---------------- refutation for the code before fix01 ---------------- *)
 (* A world in which the flattened JWS
      {"protected": b64("{alg:HS256}"), "payload": "aGVsbG8", "signature": b64(T)}
